@@ -900,6 +900,7 @@ struct TaskSim {
   std::atomic<int> live{0};                        // created and not yet freed
   std::vector<std::vector<int>> held;              // tasks held per thread
   int prefill = 0;
+  bool prefill_split = false;
   // statistics
   std::atomic<uint64_t> created{0}, handed{0}, notask{0}, notask_nonempty{0},
       two_dep_handed{0}, stolen{0}, cs_done{0}, solo_checks{0}, skipped{0},
@@ -937,7 +938,17 @@ struct TaskSim {
         tm[k].st = ST_QUEUED;
         tm[k].added = 1;
       }
-      queue(q).add_tasks(0, prefill);
+      // the block is added in one or two bulk adds: the second one lands on
+      // a queue that is not empty (add_tasks appends after the queued tasks)
+      int split = c.has_i("prefill_split") ? (int)c.i("prefill_split") : 0;
+      split = std::max(0, std::min(split, prefill));
+      if (split > 0 && split < prefill) {
+        queue(q).add_tasks(0, split);
+        queue(q).add_tasks(split, prefill);
+        prefill_split = true;
+      } else {
+        queue(q).add_tasks(0, prefill);
+      }
       live = prefill;
     }
   }
@@ -1318,6 +1329,8 @@ VCase gen_task_case(int max_threads, int max_ops) {
     pre.push_back(depcode());
   c.I("prefill", pre);
   c.I("prefill_queue", vr::irange(0, nth));
+  // half of the prefilled cases: two bulk adds, the second on a non-empty queue
+  c.I("prefill_split", (npre > 1 && vr::coin(0.5)) ? vr::irange(1, npre - 1) : 0);
   for (int t = 0; t < nth; ++t) {
     const int n = (int)vr::irange(1, max_ops);
     std::vector<int64_t> p;
@@ -1365,6 +1378,8 @@ void task_labels(VResult &r, const TaskSim &S) {
     r.label("sequential-spec-checked-solo");
   if (S.prefill)
     r.label("prefilled-by-add_tasks");
+  if (S.prefill_split)
+    r.label("add_tasks-on-non-empty-queue");
   if (S.R.budget_hit)
     r.label("budget-hit");
 }
